@@ -68,6 +68,7 @@ func propC08(c *Ctx) propInfo {
 	c.panicFree(e1cfg{roots: apiRoots, pkgs: map[string]bool{"liteapi": true}, traverse: trav2, maxDepth: depth, exc: excC08, excP5: excC08P5})
 	c.reflectSetGuards("tlb")
 	c.nilFuncCalls("tlb", "tl", "boc")
+	c.nilContradictions("E1.P8-nil-contradiction", "tlb", "tl", "boc", "liteclient", "liteapi", "ton")
 	c.errflow(excE2, "tlb", "tl", "code", "boc")
 	c.bufferSizing() // the bounds proofs of the bit-level readers/writers lean on 8*len(buf) >= cap
 	c.floor("E1.P2-bounds", 250)
